@@ -154,6 +154,23 @@ def build_world():
              ensures=lambda cx: [('registered-at-the-end', z3.And(z3.Not(cx.new(cx.args['self'])._disconnectCBs.none),
                                                                   cbs_of(cx.new(cx.args['self'])) == z3.Concat(cbs_of(cx.old(cx.args['self'])), z3.Unit(cx.a('callback')))))])
 
+    # cancelNotifyOnDisconnect: one registration of the callback is withdrawn (the first), every other registration stays in
+    # order, and NOTHING ELSE changes - in particular the proxy stays known to its object handler, so a callback registered
+    # later is still told about a loss (frame: only this proxy's callback list)
+    def cancel_post(cx):
+        o, n = cbs_of(cx.old(cx.args['self'])), cbs_of(cx.new(cx.args['self']))
+        cb = cx.a('callback')
+        M = cx.ctx.membership
+        A, B = z3.Const('cancel_A', o.sort()), z3.Const('cancel_B', o.sort())
+        return [('one registration fewer', z3.Implies(z3.Length(o) >= 1, z3.Length(n) == z3.Length(o) - 1)),
+                ('what is removed is a registration of that callback with none before it; the others keep their order',
+                 z3.Implies(z3.Length(o) >= 1, z3.Exists([A, B], z3.And(o == z3.Concat(A, z3.Unit(cb), B), z3.Not(M.mem(A, cb)), n == z3.Concat(A, B))))),
+                ('nothing registered: nothing changes', z3.Implies(z3.Length(o) == 0, n == o))]
+    contract(w, 'txdbus.objects.RemoteDBusObject.cancelNotifyOnDisconnect', {'self': Ref(P), 'callback': Ref(CB)},
+             modifies=lambda cx: [(cx.args['self'], P + '._disconnectCBs')], ensures=cancel_post,
+             raises={ValueError: lambda cx: z3.And(z3.Length(cbs_of(cx.old(cx.args['self']))) >= 1,
+                                                   z3.Not(cx.ctx.membership.mem(cbs_of(cx.old(cx.args['self'])), cx.a('callback'))))})
+
     def log_proxy(I):
         # ghost statement at the end of RemoteDBusObject.connectionLost: proxy_log.append(self)
         me = I.ctx.last_self
@@ -370,7 +387,7 @@ def others_same(cx, d):
 
 def build(tier='quick'):
     w = build_world()
-    targets = ['txdbus.client.DBusClientConnection._cbGotHello', 'txdbus.client.DBusClientConnection.disconnect', 'nested:connect.try_next_ep', 'txdbus.client.connect', 'txdbus.client.DBusClientFactory.getConnection', 'txdbus.objects.RemoteDBusObject.notifyOnDisconnect', 'txdbus.objects.RemoteDBusObject.connectionLost',
+    targets = ['txdbus.client.DBusClientConnection._cbGotHello', 'txdbus.client.DBusClientConnection.disconnect', 'nested:connect.try_next_ep', 'txdbus.client.connect', 'txdbus.client.DBusClientFactory.getConnection', 'txdbus.objects.RemoteDBusObject.notifyOnDisconnect', 'txdbus.objects.RemoteDBusObject.cancelNotifyOnDisconnect', 'txdbus.objects.RemoteDBusObject.connectionLost',
                'txdbus.objects.DBusObjectHandler.connectionLost', 'txdbus.client.DBusClientConnection.connectionLost']
     sp = Spec('C09', w, lambda world: Models09(world), targets, replay=replay,
               bounded=[{'name': 'connection-history', 'run': run_bounded}],
